@@ -242,6 +242,11 @@ def stream_workload(rng, part, n_sequences):
             if header and not (form != 'identity' and rng.random() < 0.0):
                 head += b'Content-Encoding: ' + header.encode() + b'\r\n'
             wire = head + b'\r\n' + framed
+            if framing == 'length' and i == k - 1 and damage is None and rng.random() < 0.25:
+                # surplus bytes after a length-delimited coded body, arriving with its last bytes: the body is still decoded
+                # to its end (and a truncated one still reported)
+                wire += rng.choice([b'\r\n', b'X', b'\n\n<!-- trailing -->'])
+                framing = 'length+surplus'
             n = len(wire)
             cuts = sorted(set(rng.randrange(1, n) for _ in range(rng.choice([0, 1, 3, 8]))))
             hb = len(head) + 2
